@@ -171,6 +171,34 @@ func (e *env) evalFunc(fc *FuncCall) (Value, error) {
 			return nil, err
 		}
 		return "", nil
+	case "pg_advisory_xact_lock_shared", "pg_advisory_lock_shared", "pg_try_advisory_xact_lock_shared", "pg_try_advisory_lock_shared":
+		if anyNull() {
+			return nil, nil
+		}
+		n, err := toInt(args[0])
+		if err != nil {
+			return nil, err
+		}
+		if c.sess == nil {
+			return nil, unsupported("advisory lock without session")
+		}
+		try := strings.HasPrefix(name, "pg_try_")
+		if err := db.advisoryLockShared(c.sess, n.Int64(), strings.Contains(name, "_xact_")); err != nil {
+			if _, ok := err.(*waitErr); ok && try {
+				return false, nil
+			}
+			return nil, err
+		}
+		if try {
+			return true, nil
+		}
+		return "", nil
+	case "pg_advisory_unlock_shared":
+		n, err := toInt(args[0])
+		if err != nil {
+			return nil, err
+		}
+		return db.advisoryUnlockShared(c.sess, n.Int64()), nil
 	case "pg_advisory_unlock":
 		n, err := toInt(args[0])
 		if err != nil {
